@@ -102,6 +102,10 @@ PLAIN = [
     ('SELECT account, first(date) AS f, last(date) AS l, min(number) AS mn, max(number) AS mx GROUP BY account', ()),
     ('SELECT verif_fault(position, 0) AS p, account', ('fault',)),
     ('SELECT account, position WHERE account IN (SELECT account FROM #postings WHERE NOT empty(balance))', ('bal', 'subq')),
+    ('SELECT date, flag, payee, narration, tags, links, account, other_accounts, number, currency, cost_number, cost_currency, '
+     'cost_date, position, price, weight', ('wide',)),
+    ('SELECT account, weight, other_accounts WHERE number < 0', ('wide',)),
+    ('SELECT weight, other_accounts, account WHERE date > 2020-01-20', ('wide',)),
     ('SELECT nosuch FROM #t0', ('bad',)),
     ('SELECT a FROM', ('bad',)),
     ('SELECT sum(a), a FROM #t0 WHERE sum(a) > 0', ('bad',)),
